@@ -109,7 +109,8 @@ def run_case(case, ctx):
         mf = monitors.MonFile(path)
         mf.seek_delay = 0.0002
         strata.add('slow-seek-handle')
-    with SgzReader(mf if slow else path) as r:
+    import contextlib
+    with (monitors.YieldInjector(seed=zlib.crc32(case['id'].encode())) if slow else contextlib.nullcontext()) as yi, SgzReader(mf if slow else path) as r:
         if sp.is2d:
             nT, nZ = V.shape
             ops = reads.ops_2d(nT, nZ, sp.bs, rng, nops)
@@ -269,7 +270,7 @@ def run_case(case, ctx):
                 d = reads.same(f.trace[t], V[t])
                 if d:
                     bad.append({'sig': 'emulator.trace[i]:2d-mismatch', 'detail': d})
-    return {'violations': bad, 'counters': {'reads_compared': n, 'files': 1, 'slow_worker_seeks': mf.worker_seeks if mf is not None else 0}, 'strata': sorted(strata),
+    return {'violations': bad, 'counters': {'reads_compared': n, 'files': 1, 'slow_worker_seeks': mf.worker_seeks if mf is not None else 0, 'injected_yields': yi.yields if yi is not None else 0}, 'strata': sorted(strata),
             'key': '%s|%s|%s|%s|%s' % (fam, sp.rate, sp.bs, sp.shape, sp.version),
             'nontrivial': n >= 20 and int(np.prod(sp.padded)) > 4 ** len(sp.padded)}
 
